@@ -157,6 +157,7 @@ class Interp:
         self.loop_specs = {}          # (qualname, loop ordinal) -> LoopSpec
         self.current = []             # stack of qualnames being interpreted
         self.hooks = {}               # qualname -> list of (pattern, callback) intermediate hooks
+        self.last_env = {}
         stubs.interp = self
 
     # ------------------------------------------------------------------ function values
@@ -264,6 +265,7 @@ class Interp:
         env = Env(fv.mod, fv.closure, fv.cls, fv)
         self.bind_args(fv, args, kwargs, env, ctx)
         self.current.append(fv.qualname or fv.node.name)
+        self.last_env[fv.qualname or fv.node.name] = env
         try:
             self.exec_block(fv.node.body, env, ctx)
         except _Return as r:
